@@ -1,7 +1,7 @@
 (* Properties_C18.v — C18: comparison operators form one coherent relation that agrees with the values. *)
 From Coq Require Import NArith ZArith List Bool Sorting.Permutation.
 From Coq Require Import Floats.SpecFloat.
-From AJ Require Import Model.Base Model.FloatModel Model.Value Model.Compare Proofs.CompareProofs Proofs.CompareMore.
+From AJ Require Import Model.Base Model.FloatModel Model.Value Model.Compare Proofs.CompareProofs Proofs.CompareMore Proofs.CompareRefl.
 
 (* wf v: no object of v (at any depth) repeats a key.  Objects with a repeated key exist only after
    deserializeMsgPack; for them == is NOT symmetric in the code — a recorded known finding, see
@@ -145,6 +145,21 @@ Theorem C18_objects_order_of_right_irrelevant : forall la lb lb',
   NoDup (map fst lb) -> Permutation lb lb' -> op_eq (JObj la) (JObj lb) = op_eq (JObj la) (JObj lb').
 Proof. exact objects_order_of_right_irrelevant. Qed.
 Print Assumptions C18_objects_order_of_right_irrelevant.
+
+(* v == v for every value without floating-point leaves whose objects do not repeat a key; both hypotheses
+   are needed (a NaN leaf, a repeated key).  The model's operands are the contents of two stored values: when
+   both operands are the very same stored array the library answers true by its same-pointer shortcut
+   (JsonArrayConst::operator==), which differs from the element-wise answer only with a NaN leaf or a repeated
+   key inside -- a case the property does not constrain and the correspondence run does not exercise. *)
+Theorem C18_eq_reflexive : forall v, wf v -> float_free v -> op_eq v v = true.
+Proof. exact eq_reflexive. Qed.
+Print Assumptions C18_eq_reflexive.
+
+Theorem C18_reflexivity_needs_both :
+  op_eq (JObj [([107%N], JInt 1); ([107%N], JInt 2)]) (JObj [([107%N], JInt 1); ([107%N], JInt 2)]) = false /\
+  op_eq (JArr [JDouble S754_nan]) (JArr [JDouble S754_nan]) = false.
+Proof. split; [exact eq_not_reflexive_dup | exact eq_not_reflexive_nan]. Qed.
+Print Assumptions C18_reflexivity_needs_both.
 
 (* the full statement (without wf) is FALSE of the faithful model, with this witness — the known finding *)
 Theorem C18_symmetry_needs_distinct_keys :
